@@ -77,6 +77,46 @@ def plan(pid, tier, seed):
         nb = min(len(bad), cap - ng)
         return r.sample(good, ng) + r.sample(bad, nb)
 
+    def pick_rejects(behs, cap, r):
+        """C06: the exhaustive set holds every (state, rejected argument) pair; sample evenly over the pairs
+        (rejected step, the write before it) so that rare refusals (stale term at the next index, ...) are replayed"""
+        groups = {}
+        rest = []
+        for b in behs:
+            keys = []
+            prev = ""
+            for st in b:
+                if st.get("x") == "err":
+                    keys.append(json.dumps([st["a"], {k: v for k, v in st.items() if k not in ("x",)}, prev], sort_keys=True))
+                if st.get("x") == "ok":
+                    prev = json.dumps({k: v for k, v in st.items() if k not in ("x",)}, sort_keys=True)
+            if keys:
+                for k in keys:
+                    groups.setdefault(k, []).append(b)
+            else:
+                rest.append(b)
+        out, seen = [], set()
+        ks = sorted(groups)
+        r.shuffle(ks)
+        rounds = 0
+        while len(out) < cap * 9 // 10 and rounds < 50:
+            progressed = False
+            for k in ks:
+                g = groups[k]
+                if rounds < len(g):
+                    b = g[(rounds * 7919 + len(k)) % len(g)]
+                    if id(b) not in seen:
+                        seen.add(id(b))
+                        out.append(b)
+                        progressed = True
+                        if len(out) >= cap * 9 // 10:
+                            break
+            rounds += 1
+            if not progressed:
+                break
+        out += r.sample(rest, min(len(rest), cap - len(out)))
+        return out
+
     def crash_runs(n, calls):
         def g():
             out = []
@@ -109,7 +149,7 @@ def plan(pid, tier, seed):
         histories(60 if q else 600, 30 if q else 100, dict(flush=0.4, sync_wait=1.0, reopen=0.5, reads=0.2, big=True), rb=True)
         P["need"] = dict(opens=200)
     elif pid == "C06":
-        mc("MC_Seq", "MC_C06_q.cfg" if q else "MC_C06_t.cfg", 1500 if q else 15000, add_reads)
+        mc("MC_Seq", "MC_C06_q.cfg" if q else "MC_C06_t.cfg", 1500 if q else 15000, add_reads, pick=pick_rejects)
         histories(60 if q else 600, 40 if q else 120, dict(flush=0.3, sync_wait=1.0, reopen=0.15, reads=0.3, rejects=0.3))
         P["need"] = dict(rejected=100)
     elif pid == "C11":
@@ -139,6 +179,46 @@ def plan(pid, tier, seed):
            timeout=900 if q else 3000)
         crash_runs(36 if q else 400, 14 if q else 40)
         P["need"] = dict(probes=3000, crashes=500)
+    elif pid in ("C09", "C10"):
+        mc("MC_Seq", ("MC_%s_q.cfg" if q else "MC_%s_t.cfg") % pid, 300 if q else 2000, timeout=900 if q else 3000)
+        kind = "damage" if pid == "C09" else "tail"
+
+        def g():
+            out = []
+            for k in range(32 if q else 300):
+                cfg = gen.cfg_choices(rng)
+                if rng.random() < 0.25:
+                    cfg = {}
+                st = gen.random_history(rng, rng.choice([3, 6, 10, 16]) if q else rng.choice([5, 10, 20, 40]), cfg,
+                                        dict(flush=0.4, sync_wait=1.0, final_reopen=False, big=not q))
+                opts = {"max_pos": 70 if q else 100000, "all_bits": not q} if kind == "damage" else {"max_cuts": 50 if q else 100000, "all_cuts": not q}
+                out.append(dict(mode="free", tag="image:" + kind, steps=st, probes={kind: opts}))
+            return out
+        P["gen"].append(g)
+        P["need"] = dict(probes=2500)
+    elif pid == "C13":
+        mc("LockSpec", "MC_Lock_q.cfg" if q else "MC_Lock_t.cfg", 500 if q else 3000)
+        P["store_conformance"] = False
+        P["lock_conformance"] = True
+
+        def g():
+            out = []
+            for k in range(40 if q else 400):
+                cfg = gen.cfg_choices(rng)
+                m = gen.Model()
+                st = [{"a": "open", "cfg": cfg}]
+                for j in range(rng.choice([2, 5, 9])):
+                    st.append(gen.legal_op(rng, m, j))
+                    if rng.random() < 0.3:
+                        st.append({"a": "lock_try", "kind": rng.choice(["open", "dump"])})
+                st += [{"a": "flush"}, {"a": "wait_cb"}, {"a": "wait_idle"}, {"a": "lock_try", "kind": "dump"},
+                       {"a": "lock_try", "kind": "open"}, {"a": "drop"}, {"a": "lock_try", "kind": "dump"},
+                       {"a": "lock_try", "kind": "open"}, {"a": "open", "cfg": cfg}, {"a": "lock_try", "kind": "open"},
+                       {"a": "read", "from": 0, "to": MAXI}]
+                out.append(dict(mode="free", tag="lock", steps=st))
+            return out
+        P["gen"].append(g)
+        P["need"] = dict(locktries=1000)
     elif pid == "C07":
         mc("MC_Conc", "MC_C07_q.cfg" if q else "MC_C07_t.cfg", 1000 if q else 8000, add_obs)
 
@@ -320,7 +400,7 @@ def run_check(pid, tier, seed, keep=False):
     t_run = time.time() - t0
     # ---- judge: TraceMonitor on everything, TraceStore on the spec-driven runs
     mon = vlib.validate_traces("TraceMonitor", traces_s + traces_r, wd)
-    sto = vlib.validate_traces("TraceStore", traces_s, wd) if traces_s else []
+    sto = vlib.validate_traces("TraceStore", traces_s, wd) if traces_s and P.get("store_conformance", True) else []
     cnt, viols, notes = {}, [], []
     for tp, r, o in mon:
         if r is None:
@@ -342,6 +422,22 @@ def run_check(pid, tier, seed, keep=False):
         ssteps += so["steps"]
         smatched += so["matched"]
         acts |= set(so["acts"])
+
+    if P.get("lock_conformance"):
+        # LockSpec schedules: the outcome of every attempt must be the one the specification computed
+        by_id = {sc["id"]: sc for sc in spec_scripts}
+        for tp in traces_s:
+            for rid, lines in split_runs(tp).items():
+                want = [st["x"] for st in by_id[rid]["steps"] if st.get("a") == "lk_open"]
+                got = [json.loads(l)["rc"] for l in lines if '"e":"lk"' in l and '"op":"open"' in l]
+                sruns += 1
+                ssteps += len(want)
+                if want == got:
+                    conform += 1
+                    smatched += len(want)
+                else:
+                    drift.append(dict(run=rid, seq=0, why="lock outcome differs: want %s got %s" % (want, got)))
+        acts |= {"lk_open", "lk_drop"}
 
     # vacuity guard
     for k, n in P["need"].items():
